@@ -178,17 +178,33 @@ Definition disconnect_ok (names : list nsname) (ops : list op) (x : orow) : bool
   else if k =? 3 then existsb (fun o => closes_legit names o c) ops
   else true.
 
+Definition pair_is (c : N) (n : nsname) (x : N * nsname) : bool := (fst x =? c) && nseqb (snd x) n.
+
+(** a raw packet other than CONNECT for a namespace that this connection never even tried to join
+    must close the connection (a "closed" row of that connection exists) *)
+Fixpoint probes_closed (tried : list (N * nsname)) (ops : list op) (rows : list orow) : bool :=
+  match ops with
+  | [] => true
+  | OpRaw c p :: l =>
+      let n := norm_hdr (p_nsp p) in
+      if ptype_num (p_type p) =? 0 then probes_closed ((c, n) :: tried) l rows
+      else (existsb (pair_is c n) tried
+            || existsb (fun x => let '(k, _, d, _, _, _, _) := x in (k =? 3) && (d =? c)) rows)
+           && probes_closed tried l rows
+  | _ :: l => probes_closed tried l rows
+  end.
+
 Definition oracle (c : case) : bool :=
   let '(names, gated, raws, ops, rows) := c in
   forallb (attributable ops) rows
   && sid_ok [] rows
   && forallb (connect_ok names gated ops) rows
-  && forallb (disconnect_ok names ops) rows.
+  && forallb (disconnect_ok names ops) rows
+  && probes_closed [] ops rows.
 
 (** * Finding class emit-while-connect-pending (known_findings.txt): some client emit on (c, n) is
     made while the CONNECT of (c, n) sits in the middleware chain of a gated namespace.  The Go
     client sends such a packet at once and the server closes the whole connection. *)
-Definition pair_is (c : N) (n : nsname) (x : N * nsname) : bool := (fst x =? c) && nseqb (snd x) n.
 
 Fixpoint pending_emit (gated : list nsname) (pend conn : list (N * nsname)) (ops : list op) : bool :=
   match ops with
